@@ -197,6 +197,12 @@ pub fn install_panic_recorder() {
                 }
             }
         }
+        // a panic on the main thread that nothing catches ends the worker with
+        // status 101: say what it was, so that a worker death is never anonymous
+        if !loud && th == "main" && !payload.contains("injected executor panic") {
+            let before: Vec<String> = PANICS.lock().map(|p| p.iter().rev().take(3).cloned().collect()).unwrap_or_default();
+            eprintln!("PANIC-ON-MAIN {msg} ;; panics recorded before it (latest first): {before:?}");
+        }
         if let Ok(mut p) = PANICS.lock() {
             p.push(msg);
         }
@@ -810,7 +816,10 @@ pub fn run_check(meta: CheckMeta, seed: u64, tier: Tier, replay: Option<&str>) -
                         wid.clone(),
                         Violation {
                             signature: format!("{}/worker-death part={}", meta.id, o.part),
-                            what: format!("{d}; last announced case: {case}"),
+                            what: format!(
+                                "{d}; last announced case: {case}; {}",
+                                o.stderr_tail.lines().rev().find(|l| l.starts_with("PANIC-ON-MAIN")).unwrap_or("(no panic line)")
+                            ),
                             witness: Json::obj()
                                 .set("last_case", case)
                                 .set("death", d)
